@@ -13,6 +13,11 @@
  *   encfini h=        mpt_encode_array_fini() on an encode_array holding
  *                     handle h's reference (the handle is empty afterwards)
  *   bminit/bmset/bmunset/bmget   mpt_bitmap_* on an exactly sized heap block
+ *   itext data= map=  a character array (map=1: mapped buffer) and instance 1 =
+ *                     mpt_meta_buffer(&array); the array handle is dropped
+ *   iadv i= / ireset i= / iclone i= from= / iunref i=
+ *                     iterator advance / reset, metatype clone / unref; after
+ *                     every call the current value of EVERY instance is read
  * drv/mapbuf_seam.c compiles buffer_map.c with guard pages / canaries; damage
  * is reported as frozen="overrun".  No judgement: bytes are copied, return
  * codes mapped to classes.
@@ -28,6 +33,7 @@
 #undef drv_reset
 
 #include "meta.h"
+#include <sys/uio.h>
 
 extern void mapseam_set_psize(int);
 extern void mapseam_reset(void);
@@ -43,10 +49,115 @@ static int meta_from = MAXH + 1;   /* handles meta_from.. stand for metatypes ("
 static uint8_t *bm = 0;
 static size_t bmlen = 0;
 
+/* instances of the buffer metatype over one text (spec/MetaIter.tla) */
+static MPT_INTERFACE(metatype) *inst[MAXH];
+static int ninst = 0;
+
 static void metas_drop(void)
 {
 	int i;
 	for (i = 0; i < MAXH; i++) metas[i] = 0;   /* abandoned like the buffers */
+	for (i = 0; i < MAXH; i++) inst[i] = 0;
+}
+static MPT_INTERFACE(iterator) *inst_iter(MPT_INTERFACE(metatype) *mt)
+{
+	MPT_INTERFACE(iterator) *it = 0;
+	if (!mt || mt->_vptr->convertable.convert((void *) mt, MPT_ENUM(TypeIteratorPtr), &it) < 0) return 0;
+	return it;
+}
+/* what every instance hands out as its current value: type class and bytes */
+static void inst_answer(struct cmd *c, const char *ret, long long rc)
+{
+	const char *ts[MAXH];
+	const uint8_t *ds[MAXH];
+	size_t ls[MAXH];
+	int i;
+	for (i = 0; i < ninst; i++) {
+		MPT_INTERFACE(iterator) *it;
+		const MPT_STRUCT(value) *val;
+		ts[i] = "dead"; ds[i] = 0; ls[i] = 0;
+		if (!inst[i]) continue;
+		if (!(it = inst_iter(inst[i]))) { ts[i] = "noiter"; continue; }
+		if (!(val = it->_vptr->value(it))) { ts[i] = "none"; continue; }
+		if (val->_type == 's') {
+			const char *str = *((const char * const *) val->_addr);
+			ts[i] = str ? "s" : "snull";
+			ds[i] = (const uint8_t *) str;
+			ls[i] = str ? strlen(str) : 0;
+		}
+		else if (val->_type == MPT_type_toVector('c')) {
+			const struct iovec *vec = (const struct iovec *) val->_addr;
+			ts[i] = "v";
+			ds[i] = (const uint8_t *) vec->iov_base;
+			ls[i] = vec->iov_len;
+		}
+		else ts[i] = "other";
+	}
+	drv_begin(c);
+	j_str("ret", ret);
+	j_arr_open("ts");
+	for (i = 0; i < ninst; i++) j_item_str(ts[i]);
+	j_arr_close();
+	j_arr_open("ds");
+	for (i = 0; i < ninst; i++) {
+		size_t k;
+		j_sep();
+		fputc('[', drv_out);
+		for (k = 0; k < ls[i]; k++) fprintf(drv_out, k ? ",%u" : "%u", ds[i][k]);
+		fputc(']', drv_out);
+		drv_first = 0;
+	}
+	j_arr_close();
+	drv_dbg();
+	j_int("rc", rc);
+	drv_end();
+}
+static const char *iter_class(int r)
+{
+	return r < 0 ? "refused" : r == 0 ? "end" : r == 's' ? "s" : r == MPT_type_toVector('c') ? "v" : "other";
+}
+static void inst_step(struct cmd *c)
+{
+	const char *a = c->action;
+	int i = (int) drv_int(c, "i", 1) - 1;
+	if (!strcmp(a, "itext")) {
+		MPT_STRUCT(array) ar = MPT_ARRAY_INIT;
+		size_t dl = 0;
+		uint8_t *d = drv_bytes(c, "data", &dl);
+		int k;
+		for (k = 0; k < MAXH; k++) inst[k] = 0;
+		ar._buf = drv_int(c, "map", 0) ? _mpt_buffer_map(dl, 0) : _mpt_buffer_alloc(dl, 0);
+		if (!ar._buf) { free(d); inst_answer(c, "nobuffer", errno); return; }
+		ar._buf->_content_traits = mpt_type_traits('c');
+		if (dl) memcpy(ar._buf + 1, d, dl);
+		ar._buf->_used = dl;
+		free(d);
+		inst[0] = mpt_meta_buffer(&ar);
+		mpt_array_clone(&ar, 0);       /* the metatype keeps its own reference */
+		inst_answer(c, inst[0] ? "ok" : "refused", 0);
+		return;
+	}
+	if (i < 0 || i >= ninst) { inst_answer(c, "bad-instance", 0); return; }
+	if (!strcmp(a, "iclone")) {
+		int g = (int) drv_int(c, "from", 0) - 1;
+		if (g < 0 || g >= ninst || !inst[g] || inst[i]) { inst_answer(c, "skipped", 0); return; }
+		inst[i] = inst[g]->_vptr->clone(inst[g]);
+		inst_answer(c, inst[i] ? "ok" : "refused", 0);
+		return;
+	}
+	if (!inst[i]) { inst_answer(c, "skipped", 0); return; }
+	if (!strcmp(a, "iunref")) {
+		inst[i]->_vptr->unref(inst[i]);
+		inst[i] = 0;
+		inst_answer(c, "ok", 0);
+	}
+	else {
+		MPT_INTERFACE(iterator) *it = inst_iter(inst[i]);
+		int r;
+		if (!it) { inst_answer(c, "noiter", 0); return; }
+		r = a[1] == 'a' ? it->_vptr->advance(it) : it->_vptr->reset(it);
+		inst_answer(c, iter_class(r), r);
+	}
 }
 static void drv_reset(void)
 {
@@ -99,7 +210,14 @@ static void my_step(struct cmd *c)
 		mapseam_reset();
 		mapseam_set_psize((int) drv_int(c, "page", 0));
 		meta_from = (int) drv_int(c, "meta", MAXH + 1);
+		ninst = (int) drv_int(c, "n", 0);
+		if (ninst > MAXH) ninst = MAXH;
 		cow_step(c);
+		return;
+	}
+	if (a[0] == 'i' && (!strcmp(a, "itext") || !strcmp(a, "iadv") || !strcmp(a, "ireset")
+	                    || !strcmp(a, "iclone") || !strcmp(a, "iunref"))) {
+		inst_step(c);
 		return;
 	}
 	if (!strncmp(a, "bm", 2)) {
